@@ -1,10 +1,586 @@
-//! SpeedLimitLab (placeholder until the speed-limited exploration lands)
-use crate::engine::{Ctx, ReplayOutcome, Tier};
+//! SpeedLimitLab: E-SHAPE over routes x restriction patterns x grades x trains x extension schedules, each executed by
+//! a real `SpeedLimitTrainSim` (built by `TrainSimBuilder::make_speed_limit_train_sim`).  Oracles: C03, and the
+//! speed-limited halves of C07 / C11 / C12 (incl. the backward evaluation stored in the braking points).
+
+use crate::domain::net::*;
+use crate::domain::train::*;
+use crate::engine::{close_tol, guarded, Ctx, ReplayOutcome, Tier};
+use crate::props::setspeed_lab::{c11_common, state_c07, state_c12, Refs, G, RHO};
+use crate::refmodel::geometry::RouteRef;
+use altrios_core::meet_pass::est_times::make_est_times;
+use altrios_core::track::Network;
+use altrios_core::train::{InitTrainState, LinkIdxTime, SpeedLimitTrainSim};
+use altrios_core::traits::Mass;
+use altrios_core::uc;
+use serde::{Deserialize, Serialize};
 use serde_json::Value;
-pub fn rule(_which: &str, _tier: Tier) -> String {
-    "not yet".into()
+
+pub const CUTS: [f64; 5] = [600.0, 1200.0, 1300.0, 1500.0, 2400.0];
+pub const SPEEDS: [f64; 3] = [5.0, 10.0, 15.0];
+pub const TOTAL: f64 = 3000.0;
+
+#[derive(Debug, Clone, Serialize, Deserialize, PartialEq)]
+pub enum Mode {
+    /// whole path, finish(), then the stepping loop of walk()
+    Whole,
+    /// extend link by link when the front is within `threshold` metres of the end of authority
+    LinkByLink { threshold: f64 },
+    /// the real walk_timed_path with all entries at the departure time except entry `delayed` (+delay s)
+    Timed { delayed: usize, delay: f64 },
+    /// make_est_times (runs the same stepping internally)
+    EstTimes,
 }
-pub fn explore(_ctx: &mut Ctx, _which: &'static str) {}
-pub fn replay(_which: &str, _case: &Value) -> ReplayOutcome {
-    ReplayOutcome { violations: vec![], observation: String::new() }
+
+#[derive(Debug, Clone, Serialize, Deserialize, PartialEq)]
+pub struct SlCase {
+    /// marker so that replay can tell the case kinds apart
+    pub sl: bool,
+    /// link lengths (sum = 3000 m)
+    pub link_len: Vec<f64>,
+    /// global speed zones (start, end, speed)
+    pub zones: Vec<(f64, f64, f64)>,
+    /// 0 flat, 1 +1.5 %, 2 -1.5 %, 3 vee
+    pub grade: u8,
+    pub head_end: bool,
+    pub train: TrainSpec,
+    pub t0: f64,
+    pub mode: Mode,
+}
+
+fn elev_at(grade: u8, x: f64) -> f64 {
+    match grade {
+        0 => 100.0,
+        1 => 100.0 + 0.015 * x,
+        2 => 100.0 - 0.015 * x,
+        _ => {
+            if x <= TOTAL / 2.0 {
+                100.0 - 0.015 * x
+            } else {
+                100.0 - 0.015 * (TOTAL / 2.0) + 0.015 * (x - TOTAL / 2.0)
+            }
+        }
+    }
+}
+
+pub fn build_network(c: &SlCase) -> Network {
+    let mut fwd = vec![];
+    let mut base = 0.0;
+    let n = c.link_len.len();
+    for (i, &len) in c.link_len.iter().enumerate() {
+        let mut f = FwdLink::new(len, 20.0);
+        f.prev = i;
+        f.next = if i + 1 < n { i + 2 } else { 0 };
+        // elevation points: link ends + the vee bottom if inside
+        let mut pts = vec![(0.0, elev_at(c.grade, base))];
+        if c.grade == 3 && base < TOTAL / 2.0 && TOTAL / 2.0 < base + len {
+            pts.push((TOTAL / 2.0 - base, elev_at(c.grade, TOTAL / 2.0)));
+        }
+        pts.push((len, elev_at(c.grade, base + len)));
+        f.elevs = pts;
+        let mut lims = vec![];
+        for (s, e, v) in &c.zones {
+            let (a, b) = (s.max(base), e.min(base + len));
+            if a < b {
+                lims.push((a - base, b - base, *v));
+            }
+        }
+        f.speed_limits = lims;
+        f.head_end = c.head_end;
+        fwd.push(f);
+        base += len;
+    }
+    build_topology(&fwd, false, SetStyle::Single)
+}
+
+pub fn build_sim(c: &SlCase, net: &Network) -> Result<SpeedLimitTrainSim, String> {
+    let _ = net;
+    let n = c.link_len.len();
+    let lm = location_map(&[("A", vec![1]), ("B", vec![n])]);
+    let b = builder(&c.train, Some(("A", "B")), Some(InitTrainState::new(Some(c.t0 * uc::S), None, None)), Some(1));
+    b.make_speed_limit_train_sim(&lm, Some(1), None, None).map_err(|e| format!("{e:#}"))
+}
+
+/// reference enforced limit at front position x (posted restrictions, tail-end extended by train length, speed_max);
+/// at an exact breakpoint the larger neighbour is allowed
+pub fn ref_limit(c: &SlCase, train_len: f64, speed_max: f64, x: f64) -> f64 {
+    let add = if c.head_end { 0.0 } else { train_len };
+    let at = |x: f64| {
+        let mut v = speed_max;
+        for (s, e, sp) in &c.zones {
+            if *s <= x && x < *e + add && *sp < v {
+                v = *sp;
+            }
+        }
+        v
+    };
+    at(x).max(at(x - 1e-6)).max(at(x + 1e-6))
+}
+
+pub type Fails = Vec<(String, String)>;
+
+pub struct Run {
+    pub fails: Fails,
+    pub steps: u64,
+    pub checks: u64,
+    pub outcome: String,
+    pub sig: String,
+    pub validated: bool,
+    pub machinery: Option<String>,
+    pub err_full: String,
+}
+
+fn panic_class(msg: &str) -> String {
+    if msg.contains("Speed limit violated") {
+        "overspeed-assert@braking_point.rs:calc_speeds".into()
+    } else if msg.contains("index out of bounds") || msg.contains("subtract with overflow") {
+        "index-panic".into()
+    } else {
+        format!("panic:{}", msg.chars().take(40).collect::<String>().replace(' ', "_"))
+    }
+}
+
+/// input class for the known overspeed finding: the EFFECTIVE limit profile (posted zones, tail-end zones extended by
+/// the train length) has a higher-speed window of at most 300 m between two slower sections
+fn window_class(c: &SlCase) -> &'static str {
+    let len = crate::domain::train::train_ref(&c.train).length;
+    let add = if c.head_end { 0.0 } else { len };
+    let mut bps: Vec<f64> = vec![];
+    for (s, e, _) in &c.zones {
+        bps.push(*s);
+        bps.push(*e + add);
+    }
+    bps.sort_by(|a, b| a.partial_cmp(b).unwrap());
+    bps.dedup();
+    let total: f64 = c.link_len.iter().sum();
+    let at = |x: f64| {
+        let mut v = 20.0f64;
+        for (s, e, sp) in &c.zones {
+            if *s <= x && x < *e + add && *sp < v {
+                v = *sp;
+            }
+        }
+        v
+    };
+    // merged segments (start, end, value) inside the path
+    let mut segs: Vec<(f64, f64, f64)> = vec![];
+    for w in bps.windows(2) {
+        if w[0] >= total {
+            break;
+        }
+        let v = at(0.5 * (w[0] + w[1]));
+        if let Some(l) = segs.last_mut() {
+            if l.2 == v {
+                l.1 = w[1];
+                continue;
+            }
+        }
+        segs.push((w[0], w[1], v));
+    }
+    for w in segs.windows(3) {
+        if w[1].2 > w[0].2 && w[1].2 > w[2].2 && (w[1].1 - w[1].0) <= 300.0 {
+            return "short-fast-window";
+        }
+    }
+    "no-short-fast-window"
+}
+
+fn check_state_c03(c: &SlCase, st: &altrios_core::train::TrainState, speed_max: f64, checks: &mut u64, f: &mut Fails) {
+    let v = st.speed.value;
+    *checks += 4;
+    if !(v >= 0.0) {
+        f.push(("negative-speed@SpeedLimitTrainSim::solve_required_pwr".into(), format!("speed {v} at offset {}", st.offset.value)));
+    }
+    let lim = ref_limit(c, st.length.value, speed_max, st.offset.value);
+    if v > lim * (1.0 + 1e-9) + 1e-9 {
+        f.push((format!("speed-above-posted-limit@SpeedLimitTrainSim:{}", window_class(c)), format!("speed {v} m/s at front position {} m where the tightest posted limit is {lim} m/s", st.offset.value)));
+    }
+    if v > st.speed_limit.value * (1.0 + 1e-9) + 1e-9 {
+        f.push((format!("speed-above-own-limit-column@SpeedLimitTrainSim:{}", window_class(c)), format!("speed {v} > speed_limit {}", st.speed_limit.value)));
+    }
+    if st.speed_target.value > st.speed_limit.value * (1.0 + 1e-9) + 1e-9 {
+        f.push((format!("target-above-limit@BrakingPoints::calc_speeds:{}", window_class(c)), format!("speed_target {} > speed_limit {}", st.speed_target.value, st.speed_limit.value)));
+    }
+}
+
+fn end_checks(sim: &SpeedLimitTrainSim, checks: &mut u64, f: &mut Fails) {
+    *checks += 3;
+    let end = sim.offset_end().value;
+    let o = sim.state.offset.value;
+    if o > end + 1e-6 {
+        f.push(("stopped-beyond-end-of-path@SpeedLimitTrainSim::walk".into(), format!("offset {o} > path end {end}")));
+    }
+    if sim.state.speed.value != 0.0 {
+        f.push(("not-at-rest-at-end@SpeedLimitTrainSim::walk".into(), format!("final speed {}", sim.state.speed.value)));
+    }
+    if o < end - 1000.0 * 0.3048 - 1e-6 {
+        f.push(("stopped-outside-stopping-window@SpeedLimitTrainSim::walk".into(), format!("offset {o}, path end {end}")));
+    }
+}
+
+/// braking points (serialized view): consecutive "normal" points must satisfy the backward kinematics with the
+/// reference resistance at (offset, speed)
+fn braking_point_checks(sim: &SpeedLimitTrainSim, r: &Refs, checks: &mut u64, f: &mut Fails) {
+    let v = match serde_json::to_value(sim) {
+        Ok(v) => v,
+        Err(_) => return,
+    };
+    let pts = match v.get("braking_points").and_then(|b| b.get("points")).and_then(|p| p.as_array()) {
+        Some(p) => p.clone(),
+        None => return,
+    };
+    let get = |p: &Value, k: &str| p.get(k).and_then(|x| x.as_f64()).unwrap_or(f64::NAN);
+    let fmax = sim.fric_brake.force_max.value;
+    let m = sim.state.mass_static.value + sim.state.mass_rot.value;
+    let w = G * (r.train.towed_mass + r.consist_mass);
+    let len = r.train.length;
+    let dt = sim.state.dt.value;
+    for pr in pts.windows(2) {
+        let (x0, v0) = (get(&pr[0], "offset"), get(&pr[0], "speed_limit"));
+        let (x1, v1) = (get(&pr[1], "offset"), get(&pr[1], "speed_limit"));
+        if !(x0.is_finite() && x1.is_finite() && v0.is_finite() && v1.is_finite()) {
+            continue;
+        }
+        let dv = v1 - v0;
+        // a normal braking-curve point: offset consistent with dt*(v0 + dv/2) and dv > 0
+        if dv <= 0.0 || !close_tol(x0 - x1, dt * (v0 + 0.5 * dv), 1e-9, 1e-9) {
+            continue;
+        }
+        let rear = x0 - len;
+        if rear < 0.0 {
+            continue;
+        }
+        let res = r.train.rolling_ratio * w + r.train.bearing + r.train.davis_b * v0 * w + r.train.cd_area * RHO * v0 * v0 + w * (r.route.e_at(x0) - r.route.e_at(rear)) / len + w * (r.route.c_at(x0) - r.route.c_at(rear)) / len;
+        let want = dt * (fmax + res) / m;
+        *checks += 1;
+        if !close_tol(dv, want, 1e-7, 1e-9) {
+            f.push(("braking-curve-uses-wrong-resistance@BrakingPoints::recalc".into(), format!("braking point at offset {x0} m, speed {v0}: curve steps by {dv} m/s per dt but dt*(F_brake_max + res_net)/m_compound with the resistance at that position is {want}")));
+            break;
+        }
+    }
+}
+
+pub fn execute(c: &SlCase, which: &str) -> Run {
+    let mut run = Run { fails: vec![], steps: 0, checks: 0, outcome: String::new(), sig: String::new(), validated: false, machinery: None, err_full: String::new() };
+    let net = build_network(c);
+    let n = c.link_len.len();
+    let tp = train_config(&c.train).make_train_params().unwrap();
+    let seq: Vec<usize> = (1..=n).collect();
+    let r = Refs { route: RouteRef::new(&net.0, &seq, &tp), train: train_ref(&c.train), consist_mass: consist(c.train.consist, Some(1)).mass().unwrap().map(|m| m.value).unwrap_or(0.0) };
+    let speed_max = tp.speed_max.value;
+    let mut sim = match build_sim(c, &net) {
+        Ok(s) => s,
+        Err(e) => {
+            run.fails.push(("valid-train-rejected@TrainSimBuilder::make_speed_limit_train_sim".into(), e));
+            return run;
+        }
+    };
+    let all: Vec<_> = seq.iter().map(|&i| lidx(i)).collect();
+    let want_c03 = which == "C03";
+    let mut per_step = |p: &SpeedLimitTrainSim, s: &SpeedLimitTrainSim, run: &mut Run| {
+        let mut checks = 0u64;
+        match which {
+            "C03" => check_state_c03(c, &s.state, speed_max, &mut checks, &mut run.fails),
+            "C07" => run.fails.extend(state_c07(&r, p.state.offset.value, p.state.speed.value, &s.state, &mut checks, "speed-limited")),
+            "C11" => run.fails.extend(c11_common(&s.state, &s.loco_con, &mut checks, "speed-limited")),
+            "C12" => run.fails.extend(state_c12(&r, &p.state, &s.state, s.state.dt.value, &mut checks, "speed-limited")),
+            _ => {}
+        }
+        run.checks += checks;
+        run.steps += 1;
+    };
+    let cond = |s: &SpeedLimitTrainSim| s.state.offset < s.offset_end() - 1000.0 * uc::FT || (s.state.offset < s.offset_end() && s.state.speed.value != 0.0);
+    let res: Result<Result<(), String>, String> = match &c.mode {
+        Mode::Whole | Mode::LinkByLink { .. } => guarded(|| -> Result<(), String> {
+            let mut next = 0usize;
+            let threshold = match &c.mode {
+                Mode::LinkByLink { threshold } => Some(*threshold),
+                _ => None,
+            };
+            if threshold.is_none() {
+                sim.extend_path(&net.0, &all).map_err(|e| format!("{e:#}"))?;
+                sim.finish();
+                next = n;
+            } else {
+                sim.extend_path(&net.0, &all[..1]).map_err(|e| format!("{e:#}"))?;
+                next = 1;
+            }
+            let mut guard = 0u64;
+            loop {
+                // extension schedule: extend when the front is within `threshold` of the end of authority
+                if let Some(th) = threshold {
+                    while next < n && sim.state.offset.value >= sim.offset_end().value - th {
+                        sim.extend_path(&net.0, &all[next..next + 1]).map_err(|e| format!("{e:#}"))?;
+                        next += 1;
+                        if next == n {
+                            sim.finish();
+                        }
+                    }
+                }
+                if !cond(&sim) {
+                    if next < n {
+                        // stopped at the end of authority before the route was complete: extend now
+                        sim.extend_path(&net.0, &all[next..next + 1]).map_err(|e| format!("{e:#}"))?;
+                        next += 1;
+                        if next == n {
+                            sim.finish();
+                        }
+                        continue;
+                    }
+                    break;
+                }
+                let p = sim.clone();
+                sim.step().map_err(|e| format!("{e:#}"))?;
+                per_step(&p, &sim, &mut run);
+                guard += 1;
+                if guard > 20000 {
+                    return Err("no termination within 20000 steps".into());
+                }
+            }
+            Ok(())
+        }),
+        Mode::Timed { delayed, delay } => guarded(|| -> Result<(), String> {
+            let tpth: Vec<LinkIdxTime> = (0..n).map(|k| LinkIdxTime::new(lidx(k + 1), (c.t0 + if k == *delayed { *delay } else { 0.0 }) * uc::S)).collect();
+            sim.walk_timed_path(&net.0, &tpth).map_err(|e| format!("{e:#}"))?;
+            Ok(())
+        }),
+        Mode::EstTimes => guarded(|| -> Result<(), String> {
+            let (etn, _con) = make_est_times(sim.clone(), &net.0).map_err(|e| format!("{e:#}"))?;
+            run.steps += etn.val.len() as u64;
+            Ok(())
+        }),
+    };
+    match res {
+        Err(p) => {
+            run.outcome = "panic".into();
+            // how a run ends is C03's subject; the other properties only judge the steps that were taken
+            if want_c03 { run.fails.push((format!("{}:{}", panic_class(&p), window_class(c)), format!("panic instead of Ok/Err: {}", p.chars().take(200).collect::<String>()))); }
+        }
+        Ok(Err(e)) => {
+            run.outcome = format!("err:{}", e.lines().filter(|l| !l.trim_start().starts_with('[')).last().unwrap_or("").chars().take(48).collect::<String>());
+            run.err_full = e.clone();
+            run.checks += 1;
+            if want_c03 && e.trim().is_empty() {
+                run.fails.push(("error-without-message@SpeedLimitTrainSim".into(), "empty error message".into()));
+            }
+            if want_c03 && e.contains("no termination") {
+                run.fails.push(("non-termination@SpeedLimitTrainSim::walk".into(), e));
+            }
+        }
+        Ok(Ok(())) => {
+            run.outcome = "ok".into();
+            match &c.mode {
+                Mode::Timed { .. } => {
+                    // oracle on the saved history rows
+                    if want_c03 {
+                        let rows = sim.history.state_vec();
+                        for st in &rows {
+                            let mut ck = 0;
+                            check_state_c03(c, st, speed_max, &mut ck, &mut run.fails);
+                            run.checks += ck;
+                            run.steps += 1;
+                        }
+                        end_checks(&sim, &mut run.checks, &mut run.fails);
+                    } else if which == "C12" || which == "C07" {
+                        let rows = sim.history.state_vec();
+                        for w in rows.windows(2) {
+                            let mut ck = 0;
+                            if which == "C12" {
+                                run.fails.extend(state_c12(&r, &w[0], &w[1], w[1].dt.value, &mut ck, "timed-path"));
+                            } else {
+                                run.fails.extend(state_c07(&r, w[0].offset.value, w[0].speed.value, &w[1], &mut ck, "timed-path"));
+                            }
+                            run.checks += ck;
+                            run.steps += 1;
+                        }
+                    }
+                }
+                Mode::EstTimes => {}
+                _ => {
+                    if want_c03 {
+                        end_checks(&sim, &mut run.checks, &mut run.fails);
+                    }
+                    if which == "C07" {
+                        braking_point_checks(&sim, &r, &mut run.checks, &mut run.fails);
+                    }
+                    if which == "C11" {
+                        // trip-level getters = totals x documented annualization factor
+                        let fuel = sim.loco_con.get_energy_fuel().value;
+                        let res = sim.loco_con.get_net_energy_res().value;
+                        let km = sim.state.total_dist.value / 1000.0;
+                        let mgkm = sim.state.mass_freight.value / 1000.0 * km;
+                        for (ann, days) in [(false, None), (true, None), (true, Some(7))] {
+                            let mut s2 = sim.clone();
+                            if days.is_some() {
+                                // simulation_days is private: go through the serialized form
+                                let mut v = serde_json::to_value(&s2).unwrap();
+                                v["simulation_days"] = serde_json::json!(7);
+                                s2 = match serde_json::from_value(v) {
+                                    Ok(x) => x,
+                                    Err(_) => continue,
+                                };
+                            }
+                            let k = if ann { 365.25 / days.unwrap_or(1) as f64 } else { 1.0 };
+                            run.checks += 5;
+                            let ok = close_tol(s2.get_energy_fuel(ann).value, fuel * k, 1e-9, 1e-6)
+                                && close_tol(s2.get_net_energy_res(ann).value, res * k, 1e-9, 1e-6)
+                                && close_tol(s2.get_kilometers(ann), km * k, 1e-9, 1e-9)
+                                && close_tol(s2.get_megagram_kilometers(ann), mgkm * k, 1e-9, 1e-9)
+                                && close_tol(s2.get_scaling_factor(ann), k, 1e-12, 0.0);
+                            if !ok {
+                                run.fails.push(("trip-output-not-total-times-annualization@SpeedLimitTrainSim::get_*".into(), format!("annualize={ann} days={days:?}: fuel {} res {} km {} Mg-km {} vs totals {fuel} {res} {km} {mgkm} x {k}", s2.get_energy_fuel(ann).value, s2.get_net_energy_res(ann).value, s2.get_kilometers(ann), s2.get_megagram_kilometers(ann))));
+                            }
+                        }
+                    }
+                    // binding: the same schedule through the real walk() on a fresh object (whole-path mode)
+                    if c.mode == Mode::Whole {
+                        let mut fresh = build_sim(c, &net).unwrap();
+                        let ok = guarded(|| -> bool {
+                            if fresh.extend_path(&net.0, &all).is_err() {
+                                return false;
+                            }
+                            fresh.finish();
+                            fresh.walk().is_ok()
+                        });
+                        match ok {
+                            Ok(true) => {
+                                if fresh.state == sim.state && fresh.loco_con.state == sim.loco_con.state && fresh.history.len() == sim.history.len() + 1 {
+                                    run.validated = true;
+                                } else {
+                                    run.machinery = Some(format!("SpeedLimitTrainSim::walk ends differently from the stepped exploration for {:?}", c));
+                                }
+                            }
+                            _ => run.machinery = Some(format!("walk() failed where the stepped exploration succeeded for {:?}", c)),
+                        }
+                    }
+                }
+            }
+        }
+    }
+    // keep one failure per key
+    run.fails.sort_by(|a, b| a.0.cmp(&b.0));
+    run.fails.dedup_by(|a, b| a.0 == b.0);
+    run.sig = format!("{}:{}:g{}:{}:n{}:{:?}", run.outcome, window_class(c), c.grade, if c.head_end { "head" } else { "tail" }, c.link_len.len(), std::mem::discriminant(&c.mode));
+    run
+}
+
+fn zone_patterns(tier: Tier) -> Vec<Vec<(f64, f64, f64)>> {
+    let mut v = vec![];
+    for i in 0..CUTS.len() {
+        for j in (i + 1)..CUTS.len() {
+            for s1 in SPEEDS {
+                for s2 in SPEEDS {
+                    for s3 in SPEEDS {
+                        v.push(vec![(0.0, CUTS[i], s1), (CUTS[i], CUTS[j], s2), (CUTS[j], TOTAL, s3)]);
+                    }
+                }
+            }
+        }
+    }
+    let _ = tier;
+    v
+}
+
+pub fn trains() -> Vec<TrainSpec> {
+    vec![
+        TrainSpec { n_loaded: 10, n_empty: 0, davis: false, mass_override: None, length_override: None, consist: 2 },
+        TrainSpec { n_loaded: 30, n_empty: 30, davis: true, mass_override: None, length_override: None, consist: 3 },
+    ]
+}
+
+pub fn rule(which: &str, tier: Tier) -> String {
+    format!(
+        "E-SHAPE: every 3-zone restriction profile over cut points {:?} m of a 3 km route with speeds {:?} m/s (270 patterns; contains the 100-300 m higher-speed windows between slower sections) x head/tail-end sets x grade in {{flat, +1.5 %, -1.5 %, vee}} x trains {{10 loaded cars + conv/BEL, 60 mixed cars + shipped 5-unit consist}} x departure time in {{0, 137.5 s}} on (a) one 3 km link, whole path; and on a 3 x 1 km chain{}: (b) link-by-link extension when the front is within {{8047 m (5 mi), 1000 m, 25 m}} of the end of authority, (c) the real walk_timed_path with every single entry delayed by {{0, 60, 600}} s, (d) make_est_times (chain extended by a 9 km link, because it only moves the train while > 5 mi of path lie ahead). One real SpeedLimitTrainSim run per element, stepped with the real step(); oracle {} on every step (every saved row for walk_timed_path). distinct_nontrivial = distinct (outcome, window class, grade, head/tail, links, mode) signatures.",
+        CUTS,
+        SPEEDS,
+        if tier.is_thorough() { " (all patterns)" } else { " (every 3rd pattern)" },
+        which
+    )
+}
+
+pub fn cases(tier: Tier) -> Vec<SlCase> {
+    let mut v = vec![];
+    let pats = zone_patterns(tier);
+    for (pi, z) in pats.iter().enumerate() {
+        for head in [true, false] {
+            for grade in 0..4u8 {
+                for (ti, train) in trains().into_iter().enumerate() {
+                    let t0 = if (pi + ti) % 2 == 0 { 0.0 } else { 137.5 };
+                    v.push(SlCase { sl: true, link_len: vec![TOTAL], zones: z.clone(), grade, head_end: head, train, t0, mode: Mode::Whole });
+                    // multi-link schedules
+                    if tier.is_thorough() || pi % 3 == 0 {
+                        let chain = vec![1000.0, 1000.0, 1000.0];
+                        for th in [8047.0, 1000.0, 25.0] {
+                            v.push(SlCase { sl: true, link_len: chain.clone(), zones: z.clone(), grade, head_end: head, train, t0, mode: Mode::LinkByLink { threshold: th } });
+                        }
+                        if ti == 0 {
+                            v.push(SlCase { sl: true, link_len: chain.clone(), zones: z.clone(), grade, head_end: head, train, t0, mode: Mode::Timed { delayed: 0, delay: 0.0 } });
+                            for delayed in [1usize, 2] {
+                                for delay in [60.0, 600.0] {
+                                    v.push(SlCase { sl: true, link_len: chain.clone(), zones: z.clone(), grade, head_end: head, train, t0, mode: Mode::Timed { delayed, delay } });
+                                }
+                            }
+                            if grade % 2 == 0 {
+                                // make_est_times only moves the train while more than 5 mi of path lie ahead: add a 9 km link
+                                let mut zl = z.clone();
+                                zl.push((TOTAL, TOTAL + 9000.0, 15.0));
+                                v.push(SlCase { sl: true, link_len: vec![1000.0, 1000.0, 1000.0, 9000.0], zones: zl, grade, head_end: head, train, t0, mode: Mode::EstTimes });
+                            }
+                        }
+                    }
+                }
+            }
+        }
+    }
+    v
+}
+
+pub fn explore(ctx: &mut Ctx, which: &'static str) {
+    for c in cases(ctx.tier) {
+        // C07/C11/C12 ride on the whole-path and link-by-link runs (and timed rows for C07/C12)
+        if which != "C03" {
+            match (&c.mode, which) {
+                (Mode::EstTimes, _) => continue,
+                (Mode::Timed { .. }, "C11") => continue,
+                _ => {}
+            }
+        }
+        if !ctx.claim() {
+            continue;
+        }
+        ctx.describe(&serde_json::to_value(&c).unwrap());
+        let run = execute(&c, which);
+        ctx.evaluation();
+        ctx.stats.states += run.steps;
+        ctx.stats.transitions += run.steps;
+        ctx.checks(run.checks);
+        ctx.sig(&run.sig);
+        if run.validated {
+            ctx.validated();
+        }
+        if let Some(m) = run.machinery {
+            ctx.machinery_error(m);
+        }
+        ctx.count(&format!("outcome:{}", run.outcome.chars().take(60).collect::<String>()));
+        ctx.sample(|| serde_json::to_value(&c).unwrap());
+        let size = c.link_len.len() as u64 * 10 + c.zones.len() as u64;
+        for (k, w) in run.fails {
+            if ctx.wants_violation(&k, size) {
+                ctx.violation(&k, w, serde_json::to_value(&c).unwrap(), size);
+            } else {
+                ctx.count_violation_only(&k);
+            }
+        }
+        if ctx.out_of_time() {
+            break;
+        }
+    }
+}
+
+pub fn replay(which: &str, case: &Value) -> ReplayOutcome {
+    let c: SlCase = match serde_json::from_value(case.clone()) {
+        Ok(c) => c,
+        Err(e) => return ReplayOutcome { violations: vec![("bad-replay-file".into(), e.to_string())], observation: String::new() },
+    };
+    let run = execute(&c, which);
+    ReplayOutcome { violations: run.fails, observation: format!("{} steps={} {}", run.outcome, run.steps, run.err_full.chars().take(600).collect::<String>()) }
 }
